@@ -188,6 +188,10 @@ pub trait Sub: Sync {
     fn workers(&self, env: &Env) -> usize {
         env.workers
     }
+    /// how many enumerated cases a worker takes at a time (1 for expensive cases)
+    fn batch(&self) -> usize {
+        256
+    }
 }
 
 pub struct Violation {
@@ -448,8 +452,8 @@ where
                 'outer: loop {
                     let batch: Vec<S::Case> = {
                         let mut it = source.lock().unwrap();
-                        let mut b = Vec::with_capacity(256);
-                        for _ in 0..256 {
+                        let mut b = Vec::with_capacity(sub.batch());
+                        for _ in 0..sub.batch().max(1) {
                             match it.next() {
                                 Some(c) => b.push(c),
                                 None => break,
